@@ -134,20 +134,26 @@ def model_filter(ctx, pts, knees, link, t, mode):
 
 
 @core.safe_case
-def one(ctx, pts, knees, link, t, mode, family):
+def one(ctx, pts, knees, link, t, mode, family, int_dtype=None):
     import kneeliverse.postprocessing as pp
     import kneeliverse.knee_ranking as kr
     import kneeliverse.convex_hull as ch
     n = len(pts)
     knees = [int(k) for k in knees]
     ka = np.array(knees, dtype=int)
-    case = dict(points=pts.tolist(), knees=knees, linkage=link, t=float(t), mode=mode)
+    if int_dtype is None:
+        int_dtype = bool(gen.int_ok(pts) and ctx.rng.random() < 0.5)
+    case = dict(points=pts.tolist(), knees=knees, linkage=link, t=float(t), mode=mode, int_dtype=bool(int_dtype))
     site = f'postprocessing.filter_clusters[{mode},{link}]' if mode != 'corners' else f'postprocessing.filter_clusters_corners[{link}]'
+    # an integral curve is the same curve as an int64 array (raw counts): the REAL call gets that array, every oracle / reference below the float64 copy
+    pin = pts.astype(np.int64) if int_dtype else pts
+    if int_dtype:
+        ctx.tag('input:int64-dtype')
     try:
         if mode == 'corners':
-            out = pp.filter_clusters_corners(pts, ka, link_fn(link), t)
+            out = pp.filter_clusters_corners(pin, ka, link_fn(link), t)
         else:
-            out = pp.filter_clusters(pts, ka, link_fn(link), t, getattr(kr.ClusterRanking, mode))
+            out = pp.filter_clusters(pin, ka, link_fn(link), t, getattr(kr.ClusterRanking, mode))
         out = [int(v) for v in np.asarray(out).tolist()]
     except Exception as e:
         ctx.fail('predicate', 'completes', site, case, repr(e)[:200])
@@ -262,6 +268,16 @@ def run(ctx):
         pts, fam = gen.dyadic_curve(rng, n, scale_exp=0)
         pts, vt = gen.magnitude(rng, pts, 0.2, ('xytiny30', 'xtiny30', 'ytiny30', 'xyhuge30', 'yoff30'))
         fam += vt
+        if not vt and rng.random() < 0.15:
+            # integer curve (raw counts): heights floored on a 2^-m grid and scaled to integers
+            m = 2.0 ** rng.choice([3, 5, 8])
+            q = np.column_stack([pts[:, 0] * (1.0 if np.all(pts[:, 0] == np.floor(pts[:, 0])) else m), np.floor(pts[:, 1] * m)])
+            if np.all(np.diff(q[:, 0]) > 0) and np.all(q == np.floor(q)):
+                pts, fam = q, fam + '@integer'
+        elif not vt and rng.random() < 0.06:
+            q = gen.bytecount_of(pts)
+            if np.ptp(q[:, 1]) > 0:
+                pts, fam = q, fam + '@bytecount'
         k = rng.randrange(2, min(n - 2, 12) + 1)
         if rng.random() < 0.05:
             k = rng.choice([0, 1])                           # the early-return paths: no knee, a single knee
@@ -279,4 +295,4 @@ def run(ctx):
 
 def replay(ctx, body):
     c = body['case']
-    one(ctx, np.array(c['points'], float), c['knees'], c['linkage'], c['t'], c['mode'], 'replay')
+    one(ctx, np.array(c['points'], float), c['knees'], c['linkage'], c['t'], c['mode'], 'replay', bool(c.get('int_dtype', False)))
